@@ -418,6 +418,10 @@ class Machine(Interp):
                 f = v.props.get("unpack")
                 if f is None:
                     raise Unsupported(f"unpacking opaque {v!r}")
+                if "len" in v.props:
+                    n = v.props["len"](v)
+                    if not ops.truth(ops.compare(ast.Eq(), n, len(t.elts))):
+                        raise IRaise(ValueError(f"cannot unpack: expected {len(t.elts)} values"))
                 v = f(v, len(t.elts))
             if isinstance(v, IGen):
                 v = self.drain(v)
